@@ -183,6 +183,8 @@ type Replica struct {
 	secrets  *k8s.SecretController
 	filter   *server.ExtAuthZFilter
 	BootErr  error
+	cfgs     []*oidcv1.OIDCConfig // this replica's loaded OIDC configs, by filter index
+	idx      int                  // 0 = primary; >0 = further replicas of the same deployment
 }
 
 type World struct {
@@ -193,7 +195,9 @@ type World struct {
 	IdPs    []*IdP
 	Filters []*FilterRT
 	Rep     *Replica
-	Lean    bool // no spying / recording (race build)
+	Reps    []*Replica       // all replicas of the deployment (Reps[0] == Rep unless it crashed)
+	taskRep map[int]*Replica // replica serving the requests of a task (a load balancer without stickiness)
+	Lean    bool             // no spying / recording (race build)
 	mu      sync.Mutex
 
 	faults      []Fault
@@ -227,6 +231,7 @@ type World struct {
 	crossFilterKnown bool
 	corruptStore     bool
 	jwksBusy         bool
+	FaultsOff        bool
 	Boots            int
 	evlog            []string
 	SimSecs          float64
@@ -236,7 +241,7 @@ func NewWorld(spec *WorldSpec, schedSeed uint64, policy int, faults []Fault) *Wo
 	w := &World{Spec: spec, Sim: NewSim(schedSeed, policy), Net: NewSimNet(), valRng: NewRng(schedSeed ^ 0x5eed),
 		faults: faults, siteCount: map[string]int{}, FaultsFired: map[string]int{}, Probes: map[string]int{},
 		secrets: map[string]string{}, active: map[int]*CheckRec{}, issuedSIDs: map[string]int{}, loggedOut: map[string]int64{},
-		presented: map[string]bool{}, lostReply: map[int]bool{},
+		presented: map[string]bool{}, lostReply: map[int]bool{}, taskRep: map[int]*Replica{},
 		start: time.Now(), redisSync: time.Now()}
 	curNet = w.Net
 	w.Net.DialFault = func(addr string) error {
@@ -346,6 +351,11 @@ func (w *World) Close() {
 	if w.Rep != nil {
 		w.Rep.cancel()
 	}
+	for _, r := range w.Reps {
+		if r != w.Rep && r.cancel != nil {
+			r.cancel()
+		}
+	}
 	w.Net.Close()
 	w.SimSecs = time.Since(w.start).Seconds()
 }
@@ -399,6 +409,9 @@ func (w *World) faultAt(site string) string {
 	w.siteCount[site]++
 	n := w.siteCount[site]
 	w.sites = append(w.sites, site)
+	if w.FaultsOff {
+		return "" // "faults stop": from here on every seam behaves
+	}
 	for _, f := range w.faults {
 		if f.Site == site && f.Nth == n {
 			if c := w.active[w.taskID()]; c != nil {
@@ -448,11 +461,26 @@ var errBoot = errors.New("boot failed")
 
 // Boot builds a replica from the configuration file. A boot failure is recorded in Rep.BootErr.
 func (w *World) Boot() *Replica {
+	r := w.bootReplica(0)
+	if r.BootErr == nil {
+		// further replicas of the same deployment: same configuration file, same Redis servers, own memory
+		w.Reps = []*Replica{r}
+		for i := 1; i < w.Spec.Replicas; i++ {
+			w.Reps = append(w.Reps, w.bootReplica(i))
+		}
+		w.Rep = r
+	}
+	return r
+}
+
+func (w *World) bootReplica(idx int) *Replica {
 	if w.cfgPath == "" {
 		w.WriteConfig()
 	}
-	r := &Replica{cfgFile: &internal.LocalConfigFile{}}
-	w.Rep = r
+	r := &Replica{cfgFile: &internal.LocalConfigFile{}, idx: idx}
+	if idx == 0 {
+		w.Rep = r
+	}
 	r.ctx, r.cancel = context.WithCancel(context.Background())
 	if err := r.cfgFile.FlagSet().Parse([]string{"--config-path", w.cfgPath}); err != nil {
 		r.BootErr = err
@@ -487,7 +515,10 @@ func (w *World) Boot() *Replica {
 	for _, ch := range r.cfg.Chains {
 		for _, f := range ch.Filters {
 			if o := f.GetOidc(); o != nil && i < len(w.Filters) {
-				w.Filters[i].Cfg = o
+				if idx == 0 {
+					w.Filters[i].Cfg = o
+				}
+				r.cfgs = append(r.cfgs, o)
 				i++
 			}
 		}
@@ -514,13 +545,13 @@ func (w *World) Boot() *Replica {
 	var fac oidc.SessionStoreFactory = r.sessions
 	var jw oidc.JWKSProvider = r.jwks
 	if !w.Lean {
-		fac = &spyFactory{w: w, inner: r.sessions}
+		fac = &spyFactory{w: w, inner: r.sessions, rep: r}
 		jw = &spyJWKS{w: w, inner: r.jwks}
 	} else {
 		fac = &yieldFactory{w: w, inner: r.sessions}
 	}
 	r.filter = server.NewExtAuthZFilter(r.cfg, r.tlsPool, jw, fac)
-	if w.Spec.HandlerMode {
+	if w.Spec.HandlerMode && idx == 0 {
 		w.buildSharedHandlers()
 	}
 	return r
@@ -530,6 +561,11 @@ func (w *World) Boot() *Replica {
 func (w *World) CrashRestart() {
 	if w.Rep != nil {
 		w.Rep.cancel()
+	}
+	for _, r := range w.Reps {
+		if r != w.Rep && r.cancel != nil {
+			r.cancel() // the whole deployment restarts
+		}
 	}
 	w.countFault("crash-restart")
 	oidc.VerifResetDiscovery()
@@ -566,6 +602,7 @@ func (w *World) Advance(d time.Duration) {
 type spyFactory struct {
 	w     *World
 	inner oidc.SessionStoreFactory
+	rep   *Replica
 }
 
 func (f *spyFactory) Get(cfg *oidcv1.OIDCConfig) oidc.SessionStore {
@@ -577,6 +614,13 @@ func (f *spyFactory) Get(cfg *oidcv1.OIDCConfig) oidc.SessionStore {
 	for _, fr := range f.w.Filters {
 		if fr.Cfg == cfg {
 			idx = fr.Idx
+		}
+	}
+	if f.rep != nil {
+		for i, c := range f.rep.cfgs {
+			if c == cfg {
+				idx = i
+			}
 		}
 	}
 	return &spyStore{w: f.w, inner: st, filter: idx}
@@ -886,10 +930,15 @@ func (j *spyJWKS) Get(ctx context.Context, cfg *oidcv1.OIDCConfig) (jwk.Set, err
 	}()
 	w.Sim.SetCur(task)
 	if err != nil && task != nil {
+		// whatever the reason (cancelled context, an answer lost earlier and not retried yet): the key source
+		// failed inside this check, and the rules for checks with a failing component apply
 		w.mu.Lock()
 		c := w.active[task.ID]
 		w.mu.Unlock()
-		c.failedAfterCancel("jwks.get")
+		if c != nil {
+			c.Faults = append(c.Faults, "jwks.get:provider-error")
+			w.probe("key-provider-errors-not-injected-at-the-seam")
+		}
 	}
 	return set, err
 }
@@ -1003,6 +1052,7 @@ type CheckRec struct {
 	Perturbed  bool // the store content was perturbed (eviction, corruption) during this check
 	Abandoned  bool // the replica crashed inside this check: no verdict
 	PanicStack string
+	Replica    int  // index of the replica that served the request
 	Cancelled  bool // the caller (Envoy) gave up on this check while it was running: its context was cancelled
 	ctx        context.Context
 	cancel     context.CancelFunc
@@ -1031,6 +1081,23 @@ func (c *CheckRec) cancelNow(w *World) {
 	c.Cancelled = true
 	w.countFault("request-context-cancelled")
 	c.cancel()
+}
+
+// cancelActive cancels the context of the check task t is running (fault kind ctx-cancel at a provider endpoint);
+// the fault entry faultAt just recorded for that check is dropped: the cancellation is not a component failure.
+func (w *World) cancelActive(t *Task) {
+	if t == nil {
+		return
+	}
+	w.mu.Lock()
+	c := w.active[t.ID]
+	w.mu.Unlock()
+	if c != nil {
+		if n := len(c.Faults); n > 0 && strings.HasSuffix(c.Faults[n-1], ":ctx-cancel") {
+			c.Faults = c.Faults[:n-1]
+		}
+		c.cancelNow(w)
+	}
 }
 
 // failedAfterCancel records that a call made with the cancelled context failed: from then on the check has a
@@ -1243,12 +1310,21 @@ func (w *World) invoke(rec *CheckRec, req *envoy.CheckRequest) {
 			rec.PanicStack = string(debug.Stack())
 		}
 	}()
-	if w.Rep == nil || w.Rep.filter == nil {
+	rep := w.Rep
+	if t := w.Sim.Cur(); t != nil && w.taskRep[t.ID] != nil {
+		rep = w.taskRep[t.ID]
+	}
+	if rep == nil || rep.filter == nil {
 		rec.Err = errors.New("no replica")
 		return
 	}
+	rec.Replica = rep.idx
 	rec.ctx, rec.cancel = context.WithCancel(context.WithValue(context.Background(), taskKey{}, w.Sim.Cur()))
 	defer rec.cancel()
+	if rep != w.Rep {
+		rec.Resp, rec.Err = w.viaInterceptorsOn(rep, rec.ctx, req)
+		return
+	}
 	rec.Resp, rec.Err = w.dispatch(rec.ctx, rec.Filter, req)
 }
 
@@ -1276,12 +1352,16 @@ func (w *World) dispatch(ctx context.Context, fi int, req *envoy.CheckRequest) (
 // server.Server installs on its gRPC server (request-id propagation, request/response logging), so that
 // their code runs under the harness's recover() like the rest of a check.
 func (w *World) viaInterceptors(ctx0 context.Context, req *envoy.CheckRequest) (*envoy.CheckResponse, error) {
+	return w.viaInterceptorsOn(w.Rep, ctx0, req)
+}
+
+func (w *World) viaInterceptorsOn(rep *Replica, ctx0 context.Context, req *envoy.CheckRequest) (*envoy.CheckResponse, error) {
 	info := &grpc.UnaryServerInfo{FullMethod: "/envoy.service.auth.v3.Authorization/Check"}
 	logmw := server.NewLogMiddleware()
 	out, err := server.PropagateRequestID(ctx0, req, info, func(ctx context.Context, r interface{}) (interface{}, error) {
 		return logmw.UnaryServerInterceptor(ctx, r, info, func(ctx context.Context, r interface{}) (interface{}, error) {
 			cr, _ := r.(*envoy.CheckRequest)
-			return w.Rep.filter.Check(ctx, cr)
+			return rep.filter.Check(ctx, cr)
 		})
 	})
 	resp, _ := out.(*envoy.CheckResponse)
